@@ -49,6 +49,12 @@ func update(ctx context.Context, p *Pather, dc daemon.Connector, dstIAs []addr.I
 		if dstIA.IsWildcard() {
 			panic("unexpected destination IA: wildcard.")
 		}
+		if _, ok := paths[dstIA]; ok {
+			// A destination that is configured more than once (e.g. two reference
+			// clocks in one AS) is looked up once; appending the same answer again
+			// would offer every path twice.
+			continue
+		}
 		ps, err := dc.Paths(ctx, dstIA, localIA, daemon.PathReqFlags{Refresh: true})
 		if err != nil {
 			p.log.LogAttrs(ctx, slog.LevelInfo,
